@@ -57,6 +57,24 @@ def run_case(case):
     for i in range(n):
         if not close(ow[i], 2.0 * y[i] - 1.0, 0):
             V.append(viol("C07:ErrorRate:objective-weights", "ErrorRate.signed_weights()[%d]=%r expected %r (%s)" % (i, ow[i], 2.0 * y[i] - 1.0, ctx0)))
+    # cost-sensitive objective: gamma(h) - gamma(h') == -(1/n) sum_i w_i (h_i - h'_i), w = -c_fp + (c_fp + c_fn) * y
+    for costs in ({"fp": 2.0, "fn": 1.0}, {"fp": 0.0, "fn": 3.0}, {"fp": 0.5, "fn": 0.25}):
+        oc = red.ErrorRate(costs=costs)
+        oc.load_data(X, np.array(y), sensitive_features=np.array(a))
+        wc = np.asarray(oc.signed_weights(), float)
+        g00 = float(oc.gamma(MC.as_pred(zero)).iloc[0])
+        for i in range(n):
+            out["evals"] += 1
+            exp_w = -costs["fp"] + (costs["fp"] + costs["fn"]) * y[i]
+            gi = float(oc.gamma(MC.as_pred(units[i])).iloc[0])
+            if abs(wc[i] - exp_w) > 1e-12 or abs((gi - g00) - (-wc[i] / n)) > 1e-12:
+                V.append(viol("C07:ErrorRate-costs:identity", "ErrorRate(costs=%r): weight[%d]=%r (expected %r), gamma(e_%d)-gamma(0)=%r, -(1/n)w=%r (%s)" % (
+                    costs, i, wc[i], exp_w, i, gi - g00, -wc[i] / n, ctx0), exp_w, float(wc[i])))
+                break
+        # lambda-scaled weights
+        lam1 = pd.Series([1.5], index=oc.index)
+        if not np.allclose(np.asarray(oc.signed_weights(lam1), float), 1.5 * wc, rtol=0, atol=1e-12):
+            V.append(viol("C07:ErrorRate-costs:lambda-scaling", "signed_weights(1.5) != 1.5*signed_weights() (%s)" % ctx0))
     for name in PARITY:
         if all(e is None for e in events_of(name, y, c)):
             continue
